@@ -76,12 +76,13 @@ func handleHSET(params internal.HandlerFuncParams) ([]byte, error) {
 		}
 	default:
 		// Handle HSET
+		// The response is the number of fields set by this command, not the size of the resulting hash.
+		count = len(entries)
 		for field, value := range hash {
 			if entries[field] == nil {
 				entries[field] = value
 			}
 		}
-		count = len(entries)
 	}
 
 	if err = params.SetValues(params.Context, map[string]interface{}{key: entries}); err != nil {
